@@ -9,6 +9,7 @@ from harness.lib import scen
 from harness.lib.core import VERIF, Ctx, Rng, lean_lock, run_driver
 from harness.rigs import request as rig
 from harness.rigs import request_contract as rcon
+from harness.rigs import request_state as rstate
 
 MANIFEST = {
     "text": "Lean 4 proof, for every request tree, validator valuation, handler semantics, state and request, that the model of "
@@ -52,8 +53,9 @@ def norm_model(line: str) -> Tuple[str, str, str]:
     return out, valid.split("=")[1], exists.split("=")[1]
 
 
-def explore(ctx: Ctx, want_live: bool = True, structure: bool = True) -> List[dict]:
-    """Runs R-req and returns one record per request: scenario, path, impl outcome, model outcome, impl/model mask, flags."""
+def explore(ctx: Ctx, want_live: bool = True, structure: bool = True, contract=None) -> List[dict]:
+    """Runs R-req and returns one record per request: scenario, path, impl outcome, model outcome, impl/model mask, flags.
+    With a `contract` (rigs/request_contract.Contract) every request is also judged against the hand-written contract."""
     reg = registry()
     rng = ctx.rng.fork("req")
     records: List[dict] = []
@@ -101,10 +103,19 @@ def explore(ctx: Ctx, want_live: bool = True, structure: bool = True) -> List[di
                     ctx.count("action-config-rejected")
                     continue
                 fam.append(("action:" + ident, req, rig.target_exists(sim, req)))
+            roots = rcon.Roots(sim) if contract is not None else None
+            if contract is not None:
+                contract.fill(roots.keys_seen())
             with rig.Probe(sim, snap, stub=True) as probe:
                 for kind, req, exists in fam:
                     vals, vexc = rig.valuation(rm, req, snap)
                     out, resp = probe.call(req)
+                    cbad = None
+                    if contract is not None and not out.startswith("raised"):
+                        rules, on_tree = rcon.route_contract(sim, roots, contract, req)
+                        ident = kind.split(":", 1)[1] if kind.startswith("action:") else None
+                        cbad = rcon.judge_request(rules, bool(exists) and on_tree, out, contract.guards.get(ident) if ident else None)
+                        ctx.count("contract-oracle:" + ("rule-false" if any(r[2] is False for r in rules) else "rules-hold"))
                     try:
                         mask = bool(rm.check_valid(list(req), {}))
                         mask_s = "1" if mask else "0"
@@ -112,23 +123,34 @@ def explore(ctx: Ctx, want_live: bool = True, structure: bool = True) -> List[di
                         mask_s = "raised " + type(e).__name__
                     lines.append(rig.model_line(req, vals))
                     records.append({"kind": kind, "scenario": name, "round": rnd, "req": req, "impl": out, "impl_mask": mask_s,
-                                    "exists": exists, "validator_raised": vexc})
+                                    "exists": exists, "validator_raised": vexc, "contract_bad": cbad,
+                                    "history": list(history) if cbad else None})
             if want_live:
                 live = [f for f in fam if f[0].startswith("action:")]
                 live = live[: ctx.scale(60, 300)]
                 for kind, req, exists in live:
-                    before = json.dumps(sim.describe_state(), sort_keys=True, default=str)
+                    ds = sim.describe_state()
+                    before = json.dumps(ds, sort_keys=True, default=str)
+                    fp_before = rstate.fingerprint(sim)
                     with rig.Probe(sim, rig.Snap(sim._request_manager), stub=False) as probe:  # the tree changes as handlers run
                         out, resp = probe.call(req)
                     history.append(list(req))  # live requests change the state too: they are part of the path to later states
                     if True:
                         after = json.dumps(sim.describe_state(), sort_keys=True, default=str)
+                        deep = None
+                        if not out.startswith("reached"):   # refused: NOTHING below the simulation object may differ (logs aside)
+                            deep = rstate.diff(fp_before, rstate.fingerprint(sim))
+                            ctx.count("live:refused-deep-fingerprint-compared")
+                            ctx.cov["deep_fingerprint_entries_max"] = max(ctx.cov.get("deep_fingerprint_entries_max", 0), len(fp_before))
+                            ctx.cov["describe_state_leaves_max"] = max(ctx.cov.get("describe_state_leaves_max", 0),
+                                                                       rstate.leaf_count_describe_state(ds))
                         records.append({"kind": "live:" + kind, "scenario": name, "round": rnd, "req": req, "impl": out,
                                         "where": getattr(probe, "last_where", None) if out.startswith("raised") else None,
                                         "msg": getattr(probe, "last_msg", None) if out.startswith("raised") else None,
                                         "history": list(history[:-1]),
                                         "status": getattr(resp, "status", None) if not isinstance(resp, Exception) else "raised",
-                                        "resp_type": type(resp).__name__, "unchanged": before == after, "exists": exists})
+                                        "resp_type": type(resp).__name__, "unchanged": before == after, "exists": exists,
+                                        "deep_diff": deep})
     model = run_driver(EXE, lines)
     # align: every record except live ones consumed one model line
     mi = 0
@@ -169,6 +191,12 @@ def judge(ctx: Ctx, records: List[dict]):
             elif not r["impl"].startswith("reached") and not r["unchanged"]:
                 ctx.violation({"kind": "refused-request-changed-state", "action": k.split(":", 2)[2]},
                               f"refused request {r['req']} ({r['impl']}) changed describe_state()", {"scenario": r["scenario"], "req": r["req"]})
+            elif not r["impl"].startswith("reached") and r.get("deep_diff"):
+                where = r["deep_diff"][0].split(":")[0].rsplit("/", 1)[-1]
+                ctx.violation({"kind": "refused-request-changed-state(deep)", "action": k.split(":", 2)[2], "where": where},
+                              f"refused request {r['req']} ({r['impl']}) left describe_state() unchanged but changed the object graph: "
+                              f"{r['deep_diff'][:4]}", {"scenario": r["scenario"], "req": r["req"], "history": r.get("history"),
+                                                        "deep_diff": r["deep_diff"]})
             elif r["exists"] is False and r["status"] == "success":
                 ctx.violation({"kind": "success-on-missing-component", "action": k.split(":", 2)[2]},
                               f"request {r['req']} addresses a component that does not exist but was answered success",
@@ -187,6 +215,13 @@ def judge(ctx: Ctx, records: List[dict]):
                           f"request {r['req']} raised {r['impl']} instead of answering (stubbed handlers)",
                           {"scenario": r["scenario"], "round": r["round"], "req": r["req"], "observed": r["impl"]})
             continue
+        if r.get("contract_bad"):
+            b = r["contract_bad"]
+            ctx.violation({"kind": b["kind"], "rule": b.get("rule"), "component": b.get("component"), "class": b.get("class"),
+                           "via": k if k.startswith("action:") else "raw-route", "answered": "stubbed"},
+                          f"{r['scenario']} round {r['round']}: request {r['req']} disagrees with the contract ({b}); outcome with stubbed "
+                          f"handlers {r['impl']!r}", {"scenario": r["scenario"], "round": r["round"], "req": r["req"], "history": r.get("history"),
+                                                     "impl": r["impl"], "model": "failure" if b["kind"] == "contract-rule-not-enforced" else "reached"})
         if r["impl"] == r["model"]:
             agree += 1
         else:
@@ -267,7 +302,12 @@ def run(ctx: Ctx):
                        "initial state and at random perturbed states (nodes off/booting, services stopped/disabled, files deleted, software "
                        "uninstalled) of shipped scenarios; non-trivial = not simply reaching its handler; distinct by (scenario, round, request)")
     corpus(ctx)
-    judge(ctx, explore(ctx))
+    try:
+        contract = rcon.Contract(sorted(registry()))
+    except Exception as e:
+        contract = None
+        ctx.notes.append(f"contract tables not readable from drv_c05: {type(e).__name__}: {e}")
+    judge(ctx, explore(ctx, contract=contract))
     # contract search: every route-owning class driven into every gate-falsifying state, judged against the hand-written contract
     ctx.cov["rule_contract"] = ("R-contract: one instance of every node / NIC / service / application class, a folder and a file per node "
                                 "class, of a zoo game (every registered node type, every registered software class), of the shipped "
